@@ -145,6 +145,14 @@ def run(ctx):
             for flag in (True, False):
                 got = S.contains_point(p, flag)
                 ctx.check(got == truth, "curved shape: membership is not geometric truth", {"shape": name, "point": p, "boundary": flag, "offset": off}, truth, got)
+            # the exact model of the code's own subdivision (Model/WindCurved.lean); `cert` = the point is PROVED to be on no point of the boundary (C02b)
+            mm, cert = drv.ask(f"memc {core.eshape(S)} {core.ept(p)}").split()
+            ctx.count("curved-certified" if cert == "T" else "curved-uncertified")
+            if cert == "T":
+                ctx.check((mm == "T") == truth, "harness self-check: exact curved model and dense polygonisation disagree", {"shape": name, "point": p}, truth, mm)
+                for flag in (True, False):
+                    ctx.check(S.contains_point(p, flag) == (mm == "T"), "curved shape: membership differs from the exact model of the subdivided winding number at a point certified off the boundary",
+                              {"shape": name, "point": p, "boundary": flag}, mm == "T", S.contains_point(p, flag))
 
 
 def normal_offset_family(ctx):
